@@ -10,7 +10,7 @@ import asyncio
 from hypothesis import strategies as st
 
 from .. import clients, refcodec as R, stepped, vworld
-from ..runner import HarnessError, InvalidCase, Result
+from ..runner import HarnessError, InvalidCase, Result, SetupFailed
 
 ID = "C05"
 LEVEL = "fault_enumeration"
@@ -184,7 +184,7 @@ def _run_async(res, case):
                     t.cancel()
                 return
             if not await W.drain([spa._protocol.queue]):
-                raise HarnessError("no quiescence")
+                raise SetupFailed("no quiescence")
             await W.sleep(0.5)
             # reference: fold deliveries in order; a refresh counts at its final segment
             results = [t.result() for t in tasks]
@@ -257,7 +257,7 @@ def _run_threaded(res, case):
         else:
             spa, ok = stepped.connect_threaded_spa(eng, sim)
         if not ok:
-            raise HarnessError("threaded handshake failed fault-free")
+            raise SetupFailed("threaded handshake failed fault-free")
         if spa.struct.status_block != sim.structure.status_block:
             res.fail("C05|block-differs|threaded-handshake", "client block differs from the spa's right after the handshake (partial updates arrived during it)")
             return
@@ -296,7 +296,7 @@ def _run_threaded(res, case):
                 # the threaded client is driven to quiescence first: its single-slot transfer state
                 # is only specified for one transfer at a time
                 if not stepped.run_until(eng, q):
-                    raise HarnessError("threaded client not quiescent")
+                    raise SetupFailed("threaded client not quiescent")
                 spa.refresh()
                 if not stepped.run_until(eng, q):
                     res.fail("C05|refresh-does-not-finish|threaded", "refresh still pending")
@@ -309,7 +309,7 @@ def _run_threaded(res, case):
             else:
                 raise InvalidCase(op)
         if not stepped.run_until(eng, q):
-            raise HarnessError("threaded client not quiescent at the end")
+            raise SetupFailed("threaded client not quiescent at the end")
         got = spa.struct.status_block
         if got != ref.block:
             bad = [i for i in range(min(len(got), BLOCK)) if got[i] != ref.block[i]][:10]
